@@ -35,6 +35,7 @@ pub fn dispatch(op: &str, req: &Value) -> Option<String> {
             match parsed {
                 Err(e) => format!("{{\"err\":{},\"stage\":\"parse\"}}", jstr(&format!("{:?}", e))),
                 Ok(fs) => match req_str(req, "kind") {
+                    "none" => "{\"parsed\":true}".to_string(),
                     "int" => {
                         let v = BigInt::from_str(req_str(req, "value")).unwrap();
                         res(fs.format_int(&v))
